@@ -33,7 +33,7 @@ CHECKS = {
          "DESIGN.md §6 C01"),
  "C03": ("model_checking",
          "explicit-state search for oracle states + exhaustive perturbation matrix per state",
-         "Mode S enumerates every oracle state (no output / pending / final / deleted / re-proposed with another root / claimed / other bridge holds the same root) for tree sizes 1-5 (quick) / 1-9 (thorough); in every state and for every leaf position the whole perturbation family (each field, every proof element bit flips/replacements/swaps/truncations, proof length, output index, version bits, storage root, block hash, whole-preimage swaps, +2^64 amount, pairs of field representatives) is executed on the real FinalizeTokenWithdrawal handler and compared with an independent verifier (own SHA3): accepted => verifier-valid, pays the claimed amount to the claimed recipient and records the claim; rejected => digest unchanged.",
+         "Mode S enumerates every oracle state (no output / pending / final / deleted / re-proposed with another root / claimed / other bridge holds the same root) for tree sizes {1,2,5} plus size 3 committed with the repository helpers (quick) / 1-9 (thorough); in every state and for every leaf position the whole perturbation family (each field, every proof element bit flips/replacements/swaps/truncations, proof length, output index, version bits, storage root, block hash, whole-preimage swaps, +2^64 amount, pairs of field representatives) is executed on the real FinalizeTokenWithdrawal handler and compared with an independent verifier (own SHA3): accepted => verifier-valid, pays the claimed amount to the claimed recipient and records the claim; rejected => digest unchanged.",
          "Trusted: as C11 plus the independent SHA3/leaf/node/output-root reference pinned to Python hashlib vectors. Bounded: tree sizes and perturbation menus as listed in the evidence.",
          "DESIGN.md §6 C03"),
  "C06": ("model_checking",
